@@ -17,7 +17,7 @@ from gym_gridverse.envs.yaml.factory import factory_env_from_data
 from gym_gridverse.geometry import Orientation, Position
 from gym_gridverse.grid_object import Floor, Wall
 
-from vt import comp, core, envs, gen, impl, osuite, tsuite, wire
+from vt import access, comp, core, envs, gen, impl, osuite, tsuite, wire
 
 
 def mutable_ids(state):
@@ -84,7 +84,7 @@ def check_step(ctx, env, desc, s, a, r, label, hist):
         ctx.violation(f'next_state shares mutable objects with state: {sorted(set(shared))}', case)
     # reward / termination are pure too
     b2 = wire.cstate(s2)
-    for what, f in (('reward function', env._reward_function), ('terminating function', env._termination_function if hasattr(env, '_termination_function') else env._terminating_function)):
+    for what, f in (('reward function', access.reward_function(env)), ('terminating function', access.termination_function(env))):
         v1 = f(s, envs.ACTS[a], s2)
         if wire.cstate(s) != before or wire.cstate(s2) != b2:
             ctx.violation(f'the {what} modified a state passed to it', case)
@@ -170,11 +170,12 @@ def histories(ctx):
                 ids = mutable_ids(s)
                 try:
                     with impl.Journal(r.randrange(1 << 30)) as j:
-                        saved, env._rng = env._rng, j.own
+                        saved = access.get_rng(env)
+                        access.set_rng(env, j.own)
                         try:
                             ob = env.functional_observation(s)
                         finally:
-                            env._rng = saved
+                            access.set_rng(env, saved)
                     if wire.cstate(s) != before:
                         ctx.violation('functional_observation modified the state passed to it', case)
                     sh = [w for i, w in {id(ob.grid): 'grid', id(ob.grid.objects): 'grid.objects', id(ob.agent): 'agent', id(ob.agent.transform): 'transform',
@@ -197,11 +198,12 @@ def histories(ctx):
                 if c != s or safe_hash(ctx, c, 'copy') != safe_hash(ctx, s, 'original'):
                     ctx.violation('a copied state does not equal / hash like its original', case)
                 with impl.Journal(r.randrange(1 << 30)) as j:
-                    saved, env._rng = env._rng, j.own
+                    saved = access.get_rng(env)
+                    access.set_rng(env, j.own)
                     try:
                         res = check_step(ctx, env, desc, s, a, r, label, hist)
                     finally:
-                        env._rng = saved
+                        access.set_rng(env, saved)
                 ctx.count('history event', 'step ' + envs.ACTS[a].name)
                 ctx.case(('hist', label, before, a, len(hist)), True, {'env': label, 'action': envs.ACTS[a].name, 'history': list(hist)} if len(ctx.samples) < 4 else None)
                 if res is None:
